@@ -171,6 +171,7 @@ namespace {
          for (int a = 1; a < 8; ++a) for (int b = a + 1; b < 8; ++b) if (node[a] == node[b]) fail("C11:different-sets-same-node", h, "two different qualifier sets over the same type share a node");
       }
       rep.count("traces");
+      if (rep.samples.size() < rep.sample_cap and h.masks.size() >= 2) rep.sample(vf::JObj{}.str("history", h.text()).str("union", mask_text(uni_all)).done());
       rep.member("outcomes", std::to_string(h.t) + ":" + std::to_string(uni_all) + ":" + std::to_string(h.masks.size()));
    }
 
